@@ -38,6 +38,11 @@ use tonic::{Code, Request};
 // ------------------------------------------------------------------------------------------------
 // fake bitcoind
 
+thread_local! {
+    /// set by `dispatch` (on the connection's own thread) when the reply it is producing is the one to cut
+    static CUT_THIS_REPLY: std::cell::Cell<bool> = const { std::cell::Cell::new(false) };
+}
+
 #[derive(Default)]
 pub struct BtcState {
     /// what `getblockchaininfo` answers to a poll that was not granted
@@ -69,6 +74,9 @@ pub struct BtcState {
     pub chain_name: String,
     /// report a pruned node with this prune height
     pub prune_height: Option<u64>,
+    /// the node dies while answering its n-th node RPC (0-based, counted like SimNode's outage trigger): the reply
+    /// is cut in the middle of its body and everything after it fails
+    pub cut_reply_at_node_rpc: Option<u64>,
     pub requests: u64,
     pub methods: std::collections::BTreeMap<String, u64>,
 }
@@ -432,10 +440,21 @@ impl FakeBitcoind {
                     Ok(Err((-8, "Block height out of range".into())))
                 }
             }
-            _ => match self.node.handle(method, params) {
-                Ok(r) => Ok(r),
-                Err(_) => Err(()),
-            },
+            _ => {
+                {
+                    let mut st = lock(&self.st.0);
+                    if let Some(k) = st.cut_reply_at_node_rpc {
+                        if lock(&self.node.state).rpc_calls == k && !self.node.down.load(Ordering::SeqCst) {
+                            CUT_THIS_REPLY.with(|c| c.set(true));
+                            st.cut_reply_at_node_rpc = None;
+                        }
+                    }
+                }
+                match self.node.handle(method, params) {
+                    Ok(r) => Ok(r),
+                    Err(_) => Err(()),
+                }
+            }
         }
     }
 
@@ -464,17 +483,25 @@ impl FakeBitcoind {
             let id = req.get("id").cloned().unwrap_or(Value::Null);
             let method = req.get("method").and_then(|m| m.as_str()).unwrap_or("").to_string();
             let params = req.get("params").cloned().unwrap_or(Value::Null);
-            match self.dispatch(&method, &params) {
-                Ok(Ok(v)) => {
-                    let body = serde_json::to_vec(&json!({"result": v, "error": null, "id": id})).unwrap();
-                    if sock.write_all(&http_reply(200, &body)).is_err() {
-                        return;
-                    }
-                }
-                Ok(Err((code, message))) => {
-                    let body = serde_json::to_vec(&json!({"result": null, "error": {"code": code, "message": message}, "id": id})).unwrap();
-                    let status = if code == -32601 { 404 } else { 500 };
-                    if sock.write_all(&http_reply(status, &body)).is_err() {
+            let outcome = self.dispatch(&method, &params);
+            let cut = CUT_THIS_REPLY.with(|c| c.replace(false));
+            let full = match &outcome {
+                Ok(Ok(v)) => Some(http_reply(200, &serde_json::to_vec(&json!({"result": v, "error": null, "id": id})).unwrap())),
+                Ok(Err((code, message))) => Some(http_reply(if *code == -32601 { 404 } else { 500 }, &serde_json::to_vec(&json!({"result": null, "error": {"code": code, "message": message}, "id": id})).unwrap())),
+                Err(()) => None,
+            };
+            if let (true, Some(full)) = (cut, &full) {
+                // the node process dies right here: headers and half of the body are out, the rest never comes
+                let body_len = full.len() - full.windows(4).position(|w| w == b"\r\n\r\n").map(|p| p + 4).unwrap_or(0);
+                let keep = full.len() - body_len / 2 - 1;
+                let _ = sock.write_all(&full[..keep]);
+                self.node.down.store(true, Ordering::SeqCst);
+                let _ = sock.shutdown(std::net::Shutdown::Both);
+                return;
+            }
+            match outcome {
+                Ok(_) => {
+                    if sock.write_all(full.as_ref().unwrap()).is_err() {
                         return;
                     }
                 }
